@@ -417,7 +417,7 @@ package task
 //@   site recv#1 requires ok    -- a later caller blocks until the registered execution is done       [C01,C06,C13]
 //@   site recv#1 requires semLimited() ==> tok == 0                                                    [C07]
 //@   site recv#1 requires notAncestor(h)                                                               [C07]
-//@   ensures result == nil && h != "" ==> execOK(h)   -- first caller and waiters alike return nil only for a successful execution  [C01,C06,C13]
+//@   ensures result == nil && h != "" ==> execOK(h)   -- first caller and waiters alike return nil only for a successful execution  [C01,C06,C13,C02]
 //@   nosite delete                     -- an execution key, once registered, is never unregistered     [C06]
 
 // Callees of runCommand whose bodies are outside this proof (trusted frames).
@@ -644,6 +644,7 @@ package task
 // and the compiled task itself is a new object.
 //@ ghost var dotSeen bool scratch
 //@ ghost var dotPending bool scratch
+//@ ghost var nMethodStores int scratch
 //@ func (*Executor).compiledTask
 // among the dotenv files of a task the FIRST file that defines a name wins: an entry is only added when the
 // name has not been taken yet
@@ -672,6 +673,12 @@ package task
 // The attributes of the compiled task are those of its DEFINITION; what a call passes reaches it through the
 // variables only. (The key of run: when_changed is computed from the compiled task: an attribute taken from the
 // call - its silent flag, say - would make two calls with the same variables count as different.)
+// the method of the compiled task is set once, from the task's own (templated) method: one that is empty stays empty,
+// because "the task names no method" is what makes the Taskfile's method (and, failing that, the default) apply at
+// every place that decides how to fingerprint
+//@   init nMethodStores := 0
+//@   site store:Task.Method#0 ghost nMethodStores := nMethodStores + 1
+//@   ensures nMethodStores <= 1                                                                               [C05,C04]
 //@   site store:Task.Silent#0 requires arg1 == origTask.Silent                                                [C06,C11,C03,C13]
 //@   site store:Task.Interactive#0 requires arg1 == origTask.Interactive                                      [C06,C11,C03,C13]
 //@   site store:Task.Internal#0 requires arg1 == origTask.Internal                                            [C06,C11,C03,C13]
